@@ -13,7 +13,8 @@
   positive regression theorem `c16_user_dict_over_default_list_kept`; the harness still reports an AttributeError
   at such a point under the site `update_config:user-dict-over-non-dict-default`).
   "Leaves both inputs unmodified" is trivially true of the model (a pure function); the harness deep-compares
-  both inputs before/after the real call.
+  both inputs before/after the real call, and §5 ties it to the source: the only dict `update_config` stores into is
+  the one it created as `{}`.
 
   VALIDATION.  Field-by-field theorems quantify over every configuration; the documented constraints
   (`documented`, typed from the documentation/property text) are tied to the translated schema by a kernel
@@ -22,12 +23,19 @@
   YAML/JSON parsers are not modelled (tested by the harness through the real `read_config`); only the choice of
   parser by suffix is (`c16_parser_by_suffix`).
 
+  §5 SOURCE.  `Generated.ConfigSrc` is PRINTED on every run from the abstract syntax of `config.py` / `validate.py` /
+  `__init__.py` (`tools/gens/config_src.py`).  `update_config_is_source`: the printed `update_config` equals the model
+  for all values and all iteration orders, so every merge theorem of §1 is a theorem about the function as it is
+  written now (`c16_source_effective_config`); `apply_default_config`, the suffix chain and the validate-then-return
+  flow of `read_config`, and `validate_config` likewise; module-level state, decorators, validator extensions: none.
+
   §4.  `c16_valid_user_merges`: for every user configuration that VALIDATES the effective configuration exists
   and has all the properties; `c16_valid_user_dict_over_leaf_only_free_form`: in such a configuration a user
   dictionary can replace a non-dictionary default only at the four leaves the schema leaves untyped.
 -/
 import CijProofs.Lemmas.Config
 import CijProofs.Lemmas.Schema
+import CijProofs.Lemmas.ConfigSource
 import Generated.ExampleSettings
 
 namespace Cij.C16
@@ -489,6 +497,184 @@ example : validateConfig (.obj [("qha", .obj []), ("elast", .obj []),
       ("output", .obj [("pressure_base", .obj [("cij", .bool true)])])]) with
      | .ok r => validateConfig r
      | .error _ => false) = true := by
+  decide +kernel
+
+/-! ## 5. the source code as it is written now (`Generated.ConfigSrc`, printed from the abstract syntax on this run) -/
+
+open Cij.ConfigSource
+
+/-- **`update_config` as written now IS the model**: the definition printed from the function's abstract syntax
+(fresh `{}`, loop over the key set in an arbitrary order, the `not in` / `isinstance … and isinstance …` chain, the
+recursive call) equals `Config.updateConfig` for ALL values — dictionaries of any nesting, and non-dictionaries — and
+ALL iteration orders (no hypothesis on `ord`). -/
+theorem update_config_is_source (ord : List String → List String) (u d : J) :
+    Generated.ConfigSrc.update_config ord u d = updateConfig ord u d := update_config_eq ord u d
+
+/-- **Every merge clause is a theorem about the function as written now**: for all nested dictionaries and every
+iteration order the printed function returns; the result keeps the user's leaves, fills the unspecified ones from the
+default, has no other keys, is idempotent, and does not depend on the iteration order. -/
+theorem c16_source_effective_config {ord : List String → List String} (hord : OrdOK ord) (u d : J)
+    (hu : isObj u = true) (hd : isObj d = true) :
+    ∃ r, Generated.ConfigSrc.update_config ord u d = .ok r ∧
+      (∀ p v, get u p = some v → isObj v = false → get r p = some v) ∧
+      (∀ p v, get d p = some v → isObj v = false → Unspecified u p → get r p = some v) ∧
+      (∀ p, (get r p).isSome = true → (get u p).isSome = true ∨ (get d p).isSome = true) ∧
+      (∃ r', Generated.ConfigSrc.update_config ord r d = .ok r' ∧ MapEq r' r) ∧
+      (∀ ord₂, OrdOK ord₂ → ∃ r₂, Generated.ConfigSrc.update_config ord₂ u d = .ok r₂ ∧ MapEq r r₂) := by
+  simp only [update_config_is_source]
+  obtain ⟨r, h, h1, h2, h3, h4⟩ := c16_effective_config hord u d hu hd
+  exact ⟨r, h, h1, h2, h3, h4, fun ord₂ h₂ => c16_order_free hord h₂ h⟩
+
+/-- **Inputs unmodified, at the source**: the printed function is a pure function of its two arguments, and in the
+Python text the only dictionary ever stored into is the local created as `{}` — it is not a parameter, it is what is
+returned, and the only method called on a parameter is `.keys()`.  (The recursion builds its own `{}` at every level:
+it is the same function.) -/
+theorem update_config_source_builds_fresh_dict :
+    Generated.ConfigSrc.updateConfigFresh ∉ Generated.ConfigSrc.updateConfigParams ∧
+    Generated.ConfigSrc.updateConfigStoreTargets ≠ [] ∧
+    (∀ t ∈ Generated.ConfigSrc.updateConfigStoreTargets, t = Generated.ConfigSrc.updateConfigFresh) ∧
+    Generated.ConfigSrc.updateConfigReturned = Generated.ConfigSrc.updateConfigFresh ∧
+    (∀ m ∈ Generated.ConfigSrc.updateConfigParamMethods, m = "keys") := by decide
+
+/-- **`apply_default_config` as written now IS the model**: it merges its argument (first) over the content of the
+packaged `default/settings.yaml` (second), which it reads inside the call with the YAML parser the translator of
+`Generated.defaultSettings` uses. -/
+theorem apply_default_is_source (ord : List String → List String) (u : J) :
+    Generated.ConfigSrc.apply_default_config ord packagedData u = applyDefaultConfig ord u ∧
+    Generated.ConfigSrc.applyDefaultParser = .yaml :=
+  ⟨apply_default_eq ord u, rfl⟩
+
+/-- the argument order matters and is the right one: the other order lets the default win -/
+example : Generated.ConfigSrc.update_config id (.obj [("a", .str "user")]) (.obj [("a", .str "default")])
+      = .ok (.obj [("a", .str "user")]) ∧
+    Generated.ConfigSrc.update_config id (.obj [("a", .str "default")]) (.obj [("a", .str "user")])
+      = .ok (.obj [("a", .str "default")]) := by decide
+
+/-- **No state between calls**: `config.py` has no module-level assignment and nothing at module level but imports and
+its three functions, none decorated (no `lru_cache`), no parameter with a default except `read_config`'s
+`validate=True` (no mutable-default cache); `validate.py` and `__init__.py` assign `__all__` only and are undecorated.
+Together with the printed bodies (the default file and the schema are opened inside the call) every call loads them
+afresh. -/
+theorem config_modules_stateless :
+    Generated.ConfigSrc.configPyAssignments = [] ∧ Generated.ConfigSrc.configPyOther = [] ∧
+    (∀ n, n ∈ Generated.ConfigSrc.configPyFunctions.map (·.1) ↔ n ∈ ["read_config", "update_config", "apply_default_config"]) ∧
+    Generated.ConfigSrc.configPyFunctions.length = 3 ∧
+    (∀ f ∈ Generated.ConfigSrc.configPyFunctions, f.2.1 = [] ∧
+      ∀ a ∈ f.2.2, a.2 = none ∨ (f.1 = "read_config" ∧ a = ("validate", some "True"))) ∧
+    Generated.ConfigSrc.readConfigValidateDefault = true ∧
+    (∀ a ∈ Generated.ConfigSrc.validatePyAssignments, a = "__all__") ∧ Generated.ConfigSrc.validatePyOther = [] ∧
+    (∀ f ∈ Generated.ConfigSrc.validatePyFunctions, f.1 = "validate_config" ∧ f.2.1 = [] ∧ ∀ a ∈ f.2.2, a.2 = none) ∧
+    Generated.ConfigSrc.validatePyFunctions.length = 1 ∧
+    (∀ a ∈ Generated.ConfigSrc.initPyAssignments, a = "__all__") ∧ Generated.ConfigSrc.initPyOther = [] ∧
+    Generated.ConfigSrc.initPyFunctions = [] := by
+  exact ⟨by decide, by decide, mem_iff_of_subsets (by decide) (by decide), by decide, by decide, by decide, by decide,
+    by decide, by decide, by decide, by decide, by decide, by decide⟩
+
+/-- the names the printed bodies use resolve to what they say: `validate_config` in `config.py` is `validate.py`'s,
+`Path` is pathlib's, `jsonschema` / `json` / `cij.data` in `validate.py` are the modules; and the package exports
+exactly these four functions from these two modules -/
+theorem config_names_resolve :
+    (∀ i, i ∈ Generated.ConfigSrc.configPyImports ↔
+      i ∈ ["from pathlib import Path", "from .validate import validate_config", "from typing import Union"]) ∧
+    (∀ i, i ∈ Generated.ConfigSrc.validatePyImports ↔ i ∈ ["import cij.data", "import json", "import jsonschema"]) ∧
+    (∀ e, e ∈ Generated.ConfigSrc.initPyExports ↔
+      e ∈ [("read_config", ".config", "read_config"), ("update_config", ".config", "update_config"),
+           ("apply_default_config", ".config", "apply_default_config"), ("validate_config", ".validate", "validate_config")]) := by
+  exact ⟨mem_iff_of_subsets (by decide) (by decide), mem_iff_of_subsets (by decide) (by decide),
+    mem_iff_of_subsets (by decide) (by decide)⟩
+
+/-- the documented suffixes of a settings file -/
+def documentedSuffixes : List String := [".json", ".yml", ".yaml"]
+
+/-- **The suffix dispatch of `read_config` as written now IS the model** `parserFor` (`Path(fname).suffix` →
+parser or `RuntimeError`) -/
+theorem read_config_parser_is_source (fname : String) :
+    parserFor fname = (match Generated.ConfigSrc.read_config_parser (pathSuffix fname) with
+      | some p => .ok p
+      | none => .error .runtimeError) ∧
+    Generated.ConfigSrc.readConfigElseRaises = "RuntimeError" :=
+  ⟨parser_eq fname, rfl⟩
+
+/-- **The parser table is total on the documented suffixes and rejects every other one**: `.yml` / `.yaml` are read
+with the YAML parser, `.json` with the JSON parser, anything else raises. -/
+theorem c16_parser_table_total (s : String) :
+    ((Generated.ConfigSrc.read_config_parser s).isSome = true ↔ s ∈ documentedSuffixes) ∧
+    (Generated.ConfigSrc.read_config_parser s = some .yaml ↔ (s = ".yml" ∨ s = ".yaml")) ∧
+    (Generated.ConfigSrc.read_config_parser s = some .json ↔ s = ".json") := by
+  refine ⟨?_, ?_, ?_⟩
+  · constructor
+    · intro h
+      obtain ⟨p, hp⟩ := Option.isSome_iff_exists.1 h
+      rcases (parser_some_iff s p).1 hp with ⟨h | h, _⟩ | ⟨h, _⟩ <;> simp [documentedSuffixes, h]
+    · intro h
+      simp only [documentedSuffixes, List.mem_cons, List.mem_nil_iff, or_false] at h
+      rcases h with rfl | rfl | rfl <;> decide
+  · rw [parser_some_iff]; simp
+  · rw [parser_some_iff]; simp
+
+/-- **`read_config` as written now returns the file's own content, validated as written**: for any parser and any
+validator, the call returns `cfg` iff the suffix selects a parser, that parser made `cfg` of the file, and — only when
+`validate` is set — `validate_config` accepted that very value `cfg` (not a merged or completed one); nothing is
+merged before or after. -/
+theorem read_config_is_source {ε : Type} (raised : ε) (parse : Parser → Except ε J) (vc : J → Except ε Unit)
+    (s : String) (v : Bool) (cfg : J) :
+    Generated.ConfigSrc.read_config raised parse vc s v = .ok cfg ↔
+      ∃ p, Generated.ConfigSrc.read_config_parser s = some p ∧ parse p = .ok cfg ∧ (v = true → vc cfg = .ok ()) :=
+  read_config_ok_iff raised parse vc s v cfg
+
+/-- … and raises: for an unsupported suffix, when the parser raises, or — only when `validate` is set — what
+`validate_config` raised on the parsed value -/
+theorem read_config_raises_is_source {ε : Type} (raised : ε) (parse : Parser → Except ε J) (vc : J → Except ε Unit)
+    (s : String) (v : Bool) (e : ε) :
+    Generated.ConfigSrc.read_config raised parse vc s v = .error e ↔
+      (Generated.ConfigSrc.read_config_parser s = none ∧ e = raised) ∨
+      (∃ p, Generated.ConfigSrc.read_config_parser s = some p ∧ parse p = .error e) ∨
+      (∃ p c, Generated.ConfigSrc.read_config_parser s = some p ∧ parse p = .ok c ∧ v = true ∧ vc c = .error e) :=
+  read_config_error raised parse vc s v e
+
+/-- **`validate_config` as written now**: `jsonschema.validate` receives exactly (instance = the argument, schema =
+the packaged `schema/config.schema.json`, read inside the call with the JSON parser) and no validator class; nothing in
+`validate.py` mentions the validator-extension API (`jsonschema.validators.extend`, `validator_for`, … — how
+default-filling or type-extended validators are built).  With `jsonschema.validate` as modelled it is `validateConfig`. -/
+theorem validate_config_is_source (cfg : J) :
+    (∀ {ε : Type} (jsv : J → J → Except ε Unit),
+      Generated.ConfigSrc.validate_config packagedData jsv cfg = jsv cfg Generated.configSchema) ∧
+    Generated.ConfigSrc.validate_config packagedData jsonschemaValidate cfg =
+      (if validateConfig cfg = true then .ok () else .error .validationError) ∧
+    Generated.ConfigSrc.validateConfigArgs = ["instance", "schema"] ∧
+    Generated.ConfigSrc.validateExtendedValidatorRefs = [] ∧
+    Generated.ConfigSrc.validateConfigSchemaParser = .json :=
+  ⟨fun jsv => validate_config_eq jsv cfg, by rw [validate_config_eq]; rfl, by decide, by decide, rfl⟩
+
+/-- **Validation is applied to the file's own content**: `read_config(fname)` (as printed, with `validate_config` as
+printed and the modelled `jsonschema.validate`) on a file with a documented suffix whose parser yields `content`
+returns `content` itself iff `content` validates, and raises ValidationError otherwise; with `validate=False` it
+returns `content` whatever it is. -/
+theorem c16_read_config_validates_file_content (content : J) (s : String) (hs : s ∈ documentedSuffixes) :
+    readFile content s true = (if validateConfig content = true then .ok content else .error .validationError) ∧
+    readFile content s false = .ok content := by
+  have h := (c16_parser_table_total s).1.2 hs
+  obtain ⟨p, hp⟩ := Option.isSome_iff_exists.1 h
+  constructor
+  · rw [readFile_eq, hp]
+    cases validateConfig content <;> simp
+  · rw [readFile_eq, hp]; simp
+
+/-- **Corollary: a file without a `qha` or `elast` section is rejected even though the defaults would supply them** —
+and read without validation it is returned as written. -/
+theorem c16_file_without_section_rejected (kv : KV) (s : String) (hs : s ∈ documentedSuffixes)
+    (h : hasKey "qha" kv = false ∨ hasKey "elast" kv = false) :
+    readFile (.obj kv) s true = .error .validationError ∧ readFile (.obj kv) s false = .ok (.obj kv) := by
+  obtain ⟨h1, h2⟩ := c16_read_config_validates_file_content (.obj kv) s hs
+  exact ⟨by rw [h1, c16_missing_section_rejected kv h]; rfl, h2⟩
+
+/-- non-vacuity: the empty file `{}` is rejected by `read_config`, although its effective configuration (= the packaged
+default, which does have both sections) validates; a file with both sections is accepted and returned unchanged -/
+example : readFile (.obj []) ".yaml" true = .error .validationError ∧
+    (match applyDefaultConfig id (.obj []) with
+     | .ok r => validateConfig r && hasKey "qha" (match r with | .obj kv => kv | _ => []) | .error _ => false) = true ∧
+    readFile (.obj [("qha", .obj []), ("elast", .obj [])]) ".json" true = .ok (.obj [("qha", .obj []), ("elast", .obj [])]) ∧
+    readFile (.obj []) ".txt" false = .error .unsupportedSuffix := by
   decide +kernel
 
 end Cij.C16
